@@ -190,6 +190,31 @@ def w_templates(ctx: core.Ctx, arg):
                         ctx.witness(key + '.descr_parent_child.' + sub, what, {**det, 'op': op, **label})
                     hist.problems.clear()
                 ctx.case(('tmpl', mdib_file, parent, sub, iface))
+    # a handle with a history is removed, its re-creation is aborted once, then committed: all counters continue where they were
+    if channels:
+        for iface in ('classic', 'entity'):
+            for abort_at in ('start', 'middle', 'end'):
+                mdib = ProviderMdib.from_string(base)
+                mdib.instance_id = 1
+                hist = History(mdib)
+                x = 'tmpl_recreated'
+                mk = lambda **kw: {'op': 'descr_create', 'parent': channels[0], 'handle': x, 'with_state': True, 'iface': iface,  # noqa: E731
+                                   'seed': rng.randrange(1 << 30), **kw}
+                ops = [mk(), {'op': 'metric', 'handles': [x], 'iface': iface, 'seed': 1}, {'op': 'descr_update', 'handles': [x], 'iface': iface, 'seed': 2},
+                       {'op': 'metric', 'handles': [x], 'iface': 'classic', 'seed': 3}, {'op': 'descr_delete', 'handle': x, 'iface': iface, 'seed': 4},
+                       mk(recreate=True, abort_at=abort_at), mk(recreate=True), {'op': 'metric', 'handles': [x], 'iface': iface, 'seed': 5},
+                       {'op': 'descr_delete', 'handle': x, 'iface': 'classic', 'seed': 6}, mk(recreate=True)]
+                for step, op in enumerate(ops):
+                    before = hist.last
+                    ap = mdibops.apply_op(mdib, op, {})
+                    after = hist.record()
+                    ctx.count('template.recreate_after_aborted_recreate')
+                    label = {'mdib_file': mdib_file, 'template': 'recreate_after_aborted_recreate', 'iface': iface, 'abort_at': abort_at, 'step': step}
+                    check_transition(ctx, before, after, ap, label)
+                    for key, what, det in structural_problems(after) + hist.problems:
+                        ctx.witness(key + '.descr_create.recreate_after_abort', what, {**det, 'op': op, **label})
+                    hist.problems.clear()
+                ctx.case(('tmpl3', mdib_file, iface, abort_at))
     for handle_kind in ('metric', 'alert'):
         for order in ('descr_first', 'state_after_mutation'):
             mdib = ProviderMdib.from_string(base)
